@@ -224,6 +224,10 @@ func (r *c14run) step(i int, st behav.Step) *mismatch {
 			Text: text + " | profile " + p.Name + fmt.Sprintf(" bounds [%d,%d]", p.V(p.Min), p.V(p.Max)) + " | requests: " + lastLog(r.s.Log, 12)}
 	}
 	r.res.Cover("c14:op:" + op)
+	large := st.Str("path") == "large"
+	if st.Has("path") {
+		r.res.Cover("c14:path:" + st.Str("path"))
+	}
 	switch op {
 	case "init":
 		want := pairsOf(st["vals"])
@@ -246,13 +250,13 @@ func (r *c14run) step(i int, st behav.Step) *mismatch {
 				b = append(b, [2]int{c, want[c]})
 			}
 			if len(b) > 0 {
-				if err := r.s.ImportValues(r.batchOf(b), false); err != nil {
+				if err := r.s.ImportValues(r.batchOf(b), false, large); err != nil {
 					return mk("import", "pql", "error", err.Error())
 				}
 			}
 		case "imp1d":
 			for k := len(cols) - 1; k >= 0; k-- {
-				if err := r.s.ImportValues(r.batchOf([][2]int{{cols[k], want[cols[k]]}}), false); err != nil {
+				if err := r.s.ImportValues(r.batchOf([][2]int{{cols[k], want[cols[k]]}}), false, false); err != nil {
 					return mk("import", "pql", "error", err.Error())
 				}
 			}
@@ -271,7 +275,7 @@ func (r *c14run) step(i int, st behav.Step) *mismatch {
 			cv := behav.ToInts(e)
 			b = append(b, [2]int{cv[0], cv[1]})
 		}
-		if err := r.s.ImportValues(r.batchOf(b), false); err != nil {
+		if err := r.s.ImportValues(r.batchOf(b), false, large); err != nil {
 			return mk("import", "pql", "error", err.Error())
 		}
 		return r.fullRead(st, i, mk)
@@ -286,7 +290,7 @@ func (r *c14run) step(i int, st behav.Step) *mismatch {
 			b = append(b, [2]int{c, post[c]})
 		}
 		if len(b) > 0 {
-			if err := r.s.ImportValues(r.batchOf(b), false); err != nil {
+			if err := r.s.ImportValues(r.batchOf(b), false, large); err != nil {
 				return mk("import", "pql", "error", err.Error())
 			}
 		}
@@ -296,7 +300,7 @@ func (r *c14run) step(i int, st behav.Step) *mismatch {
 		for _, c := range st.Ints("cs") {
 			b = append(b, [2]int{c, st.Int("v")})
 		}
-		if err := r.s.ImportValues(r.batchOf(b), true); err != nil {
+		if err := r.s.ImportValues(r.batchOf(b), true, large); err != nil {
 			return mk("import-clear", "pql", "error", err.Error())
 		}
 		return r.fullRead(st, i, mk)
